@@ -37,6 +37,8 @@ func runC04(c *Ctx) {
 		}
 	}
 	c.sCoverage("S-coverage", wirePkgs, exempt, 80, true)
+	c.R.Rule("S-order", "for every wire struct the encoder and the decoder first touch any two equally typed fields in the same relative order in the source (same-package helpers expanded in place): equally typed fields are not read in swapped wire positions")
+	c.sOrder("S-order", wirePkgs, map[string]string{})
 
 	// S-readset
 	bt := c.P.NamedType(txpkg, "BaseTransaction")
